@@ -25,8 +25,8 @@ const (
 	ecTimeoutLocal // blackholed call + per-attempt timeout
 	ecTimeoutCode  // handler answers with the timeout code
 	ecCancelledCode
-	ecProtocol // handler answers with a protocol error (fatal: the connection goes down)
-	ecOther    // remaining codes (0x08, 0x40)
+	ecProtocol      // handler answers with a protocol error (fatal: the connection goes down)
+	ecOther         // remaining codes (0x08, 0x40)
 	ecNetTimeoutErr // the attempt itself returns a net.Error whose Timeout() is true (a socket deadline firing in application code)
 	ecCount
 )
